@@ -17,6 +17,7 @@ import (
 	"github.com/glebziz/fs_db"
 	"github.com/glebziz/fs_db/config"
 	"github.com/glebziz/fs_db/pkg/inline"
+	"github.com/glebziz/fs_db/pkg/verif"
 
 	"fsdbverif/drv"
 )
@@ -39,12 +40,101 @@ func out(status, detail string, keys int) {
 	fmt.Println(string(b))
 }
 
+// roundtrip: the version records of n keys (ASCII, multi-byte, long, with bytes that are not UTF-8) as the store
+// persisted them must be the same records after Close and Open, and every key must read back.
+func roundtrip(ctx context.Context, n int) {
+	dir, err := os.MkdirTemp("/dev/shm", "rt")
+	if err != nil {
+		out("error", err.Error(), 0)
+		return
+	}
+	defer os.RemoveAll(dir)
+	db, err := inline.Open(ctx, cfg(dir))
+	if err != nil {
+		out("error", err.Error(), 0)
+		return
+	}
+	want := map[string][]byte{}
+	for i := 0; i < n; i++ {
+		var k string
+		switch i % 6 {
+		case 0:
+			k = fmt.Sprintf("key-%d", i)
+		case 1:
+			k = fmt.Sprintf("ключ-%d-é", i)
+		case 2:
+			k = fmt.Sprintf("鍵/%d/🔑", i)
+		case 3:
+			k = fmt.Sprintf("long-%d-%s", i, strings.Repeat("é", 700+i))
+		case 4:
+			k = fmt.Sprintf("raw-%d-\xff\xfe\x00", i) + string([]byte{0xff, 0xfe, 0x00, byte(i)})
+		default:
+			k = fmt.Sprintf("%d", i)
+		}
+		v := []byte(fmt.Sprintf("content of %d", i))
+		if err := db.Set(ctx, k, v); err != nil {
+			out("error", "set: "+err.Error(), 0)
+			return
+		}
+		want[k] = v
+	}
+	f0, k0, c0, err := verif.Records(db)
+	if err != nil {
+		out("error", err.Error(), 0)
+		return
+	}
+	if err := db.Close(); err != nil {
+		out("error", "close: "+err.Error(), 0)
+		return
+	}
+	db, err = inline.Open(ctx, cfg(dir))
+	if err != nil {
+		out("violation", fmt.Sprintf("a database of %d keys does not open again: %v", n, err), n)
+		return
+	}
+	defer db.Close()
+	f1, k1, c1, err := verif.Records(db)
+	if err != nil {
+		out("violation", fmt.Sprintf("the records of a database of %d keys cannot be listed after reopening: %v", n, err), n)
+		return
+	}
+	if len(f1) != len(f0) || len(c1) != len(c0) {
+		out("violation", fmt.Sprintf("%d keys: %d version records and %d content records before Close, %d and %d after Open", n, len(f0), len(c0), len(f1), len(c1)), n)
+		return
+	}
+	for cid, v := range f0 {
+		if f1[cid] != v || k1[cid] != k0[cid] || c1[cid] != c0[cid] {
+			out("violation", fmt.Sprintf("%d keys: the version record of content %s was (seq %d, tx %q, key %q) and decodes after reopening as (seq %d, tx %q, key %q)",
+				n, cid, v.Seq, v.Tx, k0[cid], f1[cid].Seq, f1[cid].Tx, k1[cid]), n)
+			return
+		}
+	}
+	for k, v := range want {
+		b, err := db.Get(ctx, k)
+		if err != nil || !bytes.Equal(b, v) {
+			out("violation", fmt.Sprintf("%d keys: after reopening key %q reads %q, %v", n, k, b, err), n)
+			return
+		}
+	}
+	ks, err := db.GetKeys(ctx)
+	if err != nil || len(ks) != len(want) {
+		out("violation", fmt.Sprintf("%d keys: GetKeys after reopening lists %d keys, %v", n, len(ks), err), n)
+		return
+	}
+	out("ok", "", n)
+}
+
 func main() {
 	mk := flag.String("make", "", "write a fixture into this directory")
 	ck := flag.String("check", "", "check the fixture in this directory (it is opened read-write: pass a copy)")
+	rt := flag.Int("roundtrip", 0, "write this many keys into a fresh database, reopen it, and compare every persisted record and every content")
 	flag.Parse()
 	drv.Quiet()
 	ctx := context.Background()
+	if *rt > 0 {
+		roundtrip(ctx, *rt)
+		return
+	}
 	if *mk != "" {
 		m := drv.NewMapping(77)
 		db, err := inline.Open(ctx, cfg(*mk))
